@@ -176,3 +176,26 @@ pub fn point_in_arc_sweep(c: &Constraint, x: &[f64], margin: f64) -> Option<bool
     let (lo, hi) = if sweep >= 0.0 { (0.0, sweep) } else { (sweep, 0.0) };
     Some(t >= lo - margin && t <= hi + margin)
 }
+
+/// Is the geometry of this constraint inside (or within a factor ~2 of) one of the coarse absolute
+/// guard bands of the solver, where the linearisation is switched off while the error measure is
+/// still live (documented degeneracies)?  Thresholds are absolute because the guards are.
+pub fn in_guard_band(c: &Constraint, x: &[f64]) -> bool {
+    let len = |a: &DatumPoint, b: &DatumPoint| pt(x, a).sub(pt(x, b)).len();
+    match c {
+        Constraint::Symmetric(l, _, _) => len(&l.p0, &l.p1) < 0.2,
+        Constraint::LineTangentToCircle(l, _) => len(&l.p0, &l.p1) < 0.03,
+        Constraint::ArcLength(a, _) => len(&a.center, &a.start) < 0.03,
+        Constraint::VerticalPointLineDistance(_, l, _) => (pt(x, &l.p1).0 - pt(x, &l.p0).0).abs() < 1e-3 || len(&l.p0, &l.p1) < 0.03,
+        Constraint::HorizontalPointLineDistance(_, l, _) => (pt(x, &l.p1).1 - pt(x, &l.p0).1).abs() < 1e-3 || len(&l.p0, &l.p1) < 0.03,
+        Constraint::Distance(p, q, _) => len(p, q) < 1e-3,
+        Constraint::LinesEqualLength(l0, l1) => len(&l0.p0, &l0.p1) < 1e-3 || len(&l1.p0, &l1.p1) < 1e-3,
+        Constraint::LinesAtAngle(l0, l1, AngleKind::Other(_)) => len(&l0.p0, &l0.p1) < 1e-3 || len(&l1.p0, &l1.p1) < 1e-3,
+        Constraint::ArcAngle(a, _) => len(&a.center, &a.start) < 1e-3 || len(&a.center, &a.end) < 1e-3,
+        Constraint::ArcRadius(a, _) => len(&a.center, &a.start) < 1e-3 || len(&a.center, &a.end) < 1e-3,
+        Constraint::PointArcCoincident(a, p) => len(&a.center, &a.start) < 1e-3 || len(&a.center, p) < 1e-3,
+        Constraint::PointLineDistance(_, l, _) => len(&l.p0, &l.p1) < 1e-3,
+        Constraint::CircleTangentToCircle(c0, c1) => len(&c0.center, &c1.center) < 1e-3,
+        _ => false,
+    }
+}
